@@ -43,11 +43,51 @@ DESCR = {
          "a category the provider knows with current value None: it is treated as unknown, so a positive active tag that does not match no longer excludes"),
  "C20": ("parse_user_define unquotes the value before stripping it",
          "-D name = \"value\" with padding between '=' and the quoted value: the quotes survive"),
+ "C01b": ("ScenarioContainer.run computes `failed` right after the after-hooks, before the cleanup block of context._pop()",
+          "a raising cleanup on the feature or rule layer (add_cleanup in before_feature/before_rule or layer=) in an otherwise passing run: the element ends error but the run is green"),
+ "C02b": ("Scenario.run: `elif self.should_skip and not failed` - a scenario.skip() from a step no longer switches the steps off once a step failed",
+          "continue_after_failed_step on, a failing step, then a step that skips the scenario: the steps after it still run"),
+ "C03b": ("ScenarioContainer.compute_status iterates self.scenarios instead of self.run_items",
+          "a feature with Rule sections: rules drop out of the feature roll-up (feature skipped/passed although a rule failed or was untested)"),
+ "C04b": ("Parser.action_table calls table.add_row(cells) without the line",
+          "a table (step table or Examples) with a comment or blank line between the heading and a row: rows carry heading line + index instead of their own line"),
+ "C05b": ("the 'Malformed table' ParserError reports table.line + len(rows) + 1 instead of the current line",
+          "a ragged row in a table that has comment/blank lines between its rows: the error line is too small"),
+ "C06b": ("Parser.action_table calls table.add_row(cells) without the line (same edit as C04b, judged against C06)",
+          "an Examples table with comment/blank lines between rows: generated scenarios are located at the wrong line"),
+ "C07b": ("Not.__str__ always wraps in 'not ( ... )' after stripping the operand's parentheses with str.strip('( )')",
+          "not over an and/or whose first or last operand is itself parenthesised: the printed text re-parses to a different formula or not at all"),
+ "C08b": ("v1 normalize_tag tests startswith('~') before the '-@'/'~@' branch",
+          "a negated tag written '~@tag': normalised to '-@tag', the negation is silently ignored"),
+ "C09b": ("ScenarioOutlineBuilder.make_row_tags returns the outline's own (empty) tag list instead of a fresh list",
+          "an untagged outline with two or more Examples blocks, the first tagged: that tag leaks into the outline and all later rows; selection by that tag is wrong"),
+ "C10b": ("FeatureScenarioLocationCollector.add_location assigns use_all_scenarios = not location.line on every call",
+          "several locations of one file, a bare file name (or :0) first and a line last: only the line's scenarios run instead of all"),
+ "C11b": ("StepRegistry.find_match copies the generic list instead of the type list: candidates aliases self.steps[step_type]",
+          "a type-specific registration after a look-up of that type: generic definitions sit in the type list (wrong AmbiguousStep, generic before specific)"),
+ "C12b": ("ScenarioContainer.should_run_with_tags checks self.tags instead of self.effective_tags",
+          "a tagged feature containing an untagged rule, run with a negated tag expression: the de-selected feature and rule get their hooks called"),
+ "C13b": ("Context.add_cleanup computes `already_registered` against the current frame before the layer= frame is selected",
+          "a plain cleanup registered for an outer layer that is also in the current scope (dropped) or registered for that layer from two scopes (runs twice)"),
+ "C14b": ("SummaryReporterV1.process_scenario_outline iterates scenario_outline._scenarios",
+          "--stop/abort leaving an outline whose rows were never built: its scenarios and steps are missing from the summary"),
+ "C15b": ("JSONFormatter.background iterates `background` (inherited + own steps) instead of background.steps",
+          "a feature with a Background and a Rule: the rule's background element lists the feature background's steps too"),
+ "C16b": ("JUnit: counts_tests is guarded by config.show_skipped instead of the reporter's show_skipped (which honours show_skipped_always)",
+          "skipped scenarios with --no-skipped and behave.reporter.junit.show_skipped_always=true: tests counter smaller than the number of test cases"),
+ "C17b": ("RerunFormatter.eof collects a feature's failures first and its error-class scenarios afterwards",
+          "a feature in which an error-class scenario runs before an assertion-failed one: the rerun file is not in run order"),
+ "C18b": ("CaptureController.teardown_capture: `if self.config.log_capture and self.log_capture` (LoggingCapture is falsy when its buffer is empty)",
+          "a scenario that captured no log record: the capture handler stays on the root logger, the root level is not restored"),
+ "C19b": ("ActiveTagMatcher.is_tag_group_enabled breaks out of the loop at the first matching positive tag",
+          "a matching positive tag followed by a matching negative tag of the same category: the element is not excluded"),
+ "C20b": ("UserData.getas: `value = self.get(name); if not value: return default`",
+          "a defined but falsy value: the empty string no longer raises ValueError, 0 / 0.0 / False are replaced by the default"),
 }
 runs = {}
 cur = None
 for line in open(LOG, encoding="utf-8"):
-    m = re.match(r"seed (C\d+) / check (C\d+): exit (\d+)", line)
+    m = re.match(r"seed (C\d+b?) / check (C\d+): exit (\d+)", line)
     if m:
         cur = m.group(1)
         runs[cur] = {"check": m.group(2), "exit": int(m.group(3)), "lines": []}
@@ -56,12 +96,12 @@ for line in open(LOG, encoding="utf-8"):
 for cid, (what, needs) in sorted(DESCR.items()):
     d = "/verif/seeded/%s" % cid
     r = runs.get(cid, {})
-    meta = {"property": cid, "patch": "patch.diff", "demonstration": "demo_%s.py" % cid,
+    meta = {"property": cid[:3], "patch": "patch.diff", "demonstration": "demo_%s.py" % cid,
             "what_the_change_does": what, "needs_to_manifest": needs,
             "confirmed": "applied in a scratch worktree of /repo: byte-compiles, the pinned pytest suite (1655 stable tests) still passes, "
                          "the demonstration exits non-zero on the patched tree and zero on the unchanged tree (checked by the sub-agent that "
                          "wrote it and again by me before keeping it)",
-            "what_i_ran": "/venv/bin/python harness/seedtest.py %s %s   # git -C /repo apply seeded/%s/patch.diff; quick check; git -C /repo checkout -- ." % (cid, cid, cid),
+            "what_i_ran": "/venv/bin/python harness/seedtest.py %s %s   # git -C /repo apply seeded/%s/patch.diff; quick check; git -C /repo checkout -- ." % (cid, cid[:3], cid),
             "detected_by": ([r.get("check")] if r.get("exit") == 1 else []),
             "detection": {"exit_code": r.get("exit"), "first_violation_lines": r.get("lines", [])[:2]}}
     with open(os.path.join(d, "meta.json"), "w") as f:
